@@ -8,7 +8,7 @@ import json
 
 from .. import tlc
 from ..common import Report, MachineryError, workdir, seed, WORK
-from ..rungrid_world import Geometry, GROUP_TLA
+from ..rungrid_world import Geometry, GROUP_TLA, GROUPS
 from .. import rungrid_scripts as RS
 from .. import rungrid_trace as RT
 
@@ -24,7 +24,7 @@ PROPS = {
                note='trusts: the ray double follows the documented ray.wait contract (one real-ray smoke run in the thorough tier)', ref='DESIGN.md 3.1'),
 }
 
-INVS_ALL = ["TypeOK", "NoError", "WeightOne", "NoEquivDup", "OrbitWeight", "Tiling", "IntegralConsistent",
+INVS_ALL = ["TypeOK", "NoError", "WeightOne", "NoEquivDup", "OrbitWeight", "DistinctStoragePaths", "Tiling", "IntegralConsistent",
             "SavedWeightOne", "ReturnedWeightOne", "CollectedOnce", "AllCollected", "RestartEquivalence"]
 
 
@@ -35,12 +35,13 @@ def bset(vals):
 def mc_cfg(geo, nstep=2, niter=2, adptfac=1, parA=(False,), parB=(False,), dump=(False, True), allowA=(False, True),
            sym=(True, False), withB=True, allorders=True, acc=True, sorted_listing=True, waitfirst=False, view=True,
            restart_iters=(1,),
-           invs=INVS_ALL, props=("PickleAppendOnly", "FactorFilesGrow")):
+           invs=INVS_ALL, props=("PickleAppendOnly", "FactorFilesGrow", "ResumeLatest")):
     lines = ["SPECIFICATION MCSpec", "CONSTANTS",
              f"  D = {geo.D}", f"  N = {geo.N}", f"  NDIV = {geo.NDIV}", f"  LMAX = {geo.LMAX}",
              f"  Group <- {GROUP_TLA[geo.group]}", f"  NSTEP = {nstep}",
              f"  Accumulate = {'TRUE' if acc else 'FALSE'}", f"  SortedListing = {'TRUE' if sorted_listing else 'FALSE'}",
-             f"  WaitFirstN = {'TRUE' if waitfirst else 'FALSE'}", f"  NITER = {niter}", f"  AdptFac = {adptfac}",
+             f"  WaitFirstN = {'TRUE' if waitfirst else 'FALSE'}",
+             f"  CellSymmetric = {'FALSE' if GROUPS[geo.group].get('hex') else 'TRUE'}", f"  NITER = {niter}", f"  AdptFac = {adptfac}",
              f"  ParA = {bset(parA)}", f"  ParB = {bset(parB)}", f"  DumpSet = {bset(dump)}", f"  AllowASet = {bset(allowA)}",
              f"  SymSet = {bset(sym)}", f"  WithB = {'TRUE' if withB else 'FALSE'}",
              f"  AllOrders = {'TRUE' if allorders else 'FALSE'}",
@@ -156,18 +157,18 @@ def run_random(rep, batch, geo, rng, n, niter, name, adpt_fac=1, ncpu=2, allow_p
     shutil.rmtree(wd, ignore_errors=True)
 
 
-def selftest_binding(rep, geo):
+def selftest_binding(rep, geo, pid="x"):
     """the binding must be able to reject: corrupt one logged weight / drop one event of a good trace"""
     import copy
     ops = [dict(op="run", restart=False, mode=dict(par=False, dump=False, allow=True, sym=True), nit=1, refine=[], sched={})]
-    ev, errs, w = RS.execute(ops, geo, os.path.join(workdir("rg_selftest"), "s"))
+    ev, errs, w = RS.execute(ops, geo, os.path.join(workdir(f"rg_selftest_{pid}"), "s"))
     bad1 = copy.deepcopy(ev)
     for e in bad1:
         if e["e"] == "UpdateIntegral":
             e["coef"]["coef"][0] += 1
             break
     bad2 = [e for i, e in enumerate(ev) if not (e["e"] == "Eval" and e.get("k") == 1)]
-    st, v = RT.validate([ev, bad1, bad2], geo, 2, "selftest")
+    st, v = RT.validate([ev, bad1, bad2], geo, 2, f"selftest_{pid}")
     if not v[0]["ok"] or v[1]["ok"] or v[2]["ok"]:
         raise MachineryError(f"binding self-test failed: {v}")
     rep.part("binding_selftest", good_accepted=True, corrupted_weight_rejected=v[1]["why"], dropped_event_rejected=v[2]["why"])
@@ -223,6 +224,10 @@ GEOS = {
     "2d_mx": Geometry(2, 2, 2, 1, "mx"),
     "1d_inv6": Geometry(1, 6, 2, 3, "inv"),
     "2d_c4_4": Geometry(2, 4, 2, 2, "c4"),
+    "1d_one": Geometry(1, 1, 2, 3, "inv"),      # a single initial K-point of weight exactly one
+    "2d_one": Geometry(2, 1, 2, 2, "c4"),
+    "2d_h3": Geometry(2, 3, 3, 3, "h3"),        # hexagonal: children of different parents can be equivalent
+    "2d_h3m": Geometry(2, 3, 3, 3, "h3m"),
 }
 
 RUN_ACTIONS = ["StartA", "RefineA"]
@@ -240,7 +245,7 @@ def check(pid, tier):
     rep.rule("TLC: exhaustive exploration of MC_RunGrid within the listed constants; implementation: scenario scripts "
              "(TLC simulate behaviours + seeded random) executed on the real run(), every hook event validated by TLC "
              "against RunGridTrace; a case is distinct by (geometry, scenario)")
-    selftest_binding(rep, g1)
+    selftest_binding(rep, g1, pid)
 
     if pid == "C10":
         # all storage modes, refinement meshes, adpt_fac, symmetry settings; no restart
@@ -254,15 +259,19 @@ def check(pid, tier):
                        expect_actions=RUN_ACTIONS, timeout=3000)
             exhaustive(rep, "c10_1d_n6", mc_cfg(GEOS["1d_inv6"], niter=3, adptfac=1, withB=False, allowA=(True,), dump=(False, True)),
                        expect_actions=RUN_ACTIONS, timeout=3000)
-        plan = [("1d_inv", 1, 12), ("1d_inv", 2, 8), ("1d_inv3", 1, 8), ("2d_c4", 1, 8), ("2d_c4v", 2, 6), ("1d_none", 1, 4)]
+        exhaustive(rep, "c10_1d_one", mc_cfg(GEOS["1d_one"], niter=3, adptfac=1, withB=False), expect_actions=RUN_ACTIONS)
+        exhaustive(rep, "c10_2d_h3", mc_cfg(Geometry(2, 3, 3, 2, "h3"), niter=2, adptfac=1, withB=False, allowA=(True,), dump=(True,),
+                                            sym=(True,), allorders=False), expect_actions=RUN_ACTIONS)
+        plan = [("1d_inv", 1, 2, 10), ("1d_inv", 2, 2, 6), ("1d_inv3", 1, 2, 6), ("2d_c4", 1, 2, 6), ("2d_c4v", 2, 2, 6),
+                ("1d_none", 1, 2, 4), ("1d_one", 1, 3, 4), ("2d_one", 1, 2, 4), ("2d_h3", 1, 3, 4), ("2d_h3m", 2, 3, 4)]
         mult = 6 if thorough else 1
-        for gname, fac, num in plan:
+        for gname, fac, niter, num in plan:
             geo = GEOS[gname]
-            cfg = mc_cfg(geo, niter=2, adptfac=fac, withB=False, parA=(False, True), view=False,
-                         invs=["IntegralConsistent", "WeightOne"], props=())
-            st, scripts = simulate_scripts(geo, cfg, f"c10_{gname}_{fac}", num * mult, 80, seed() + 1)
+            cfg = mc_cfg(geo, niter=niter, adptfac=fac, withB=False, parA=(False, True), view=False,
+                         invs=["IntegralConsistent", "WeightOne"], props=(), allorders=False)
+            st, scripts = simulate_scripts(geo, cfg, f"c10_{gname}_{fac}", num * mult, 60 * (niter + 1), seed() + 1)
             run_scripts(rep, batch, geo, scripts, f"c10_{gname}_{fac}", adpt_fac=fac)
-            run_random(rep, batch, geo, rng, (num // 2) * mult, 2, f"c10_{gname}_{fac}", adpt_fac=fac)
+            run_random(rep, batch, geo, rng, max(2, num // 2) * mult, niter, f"c10_{gname}_{fac}", adpt_fac=fac)
         batch.validate("c10")
         large_worlds(rep, rng, thorough)
 
